@@ -271,6 +271,7 @@ def run(repo: Repo, chk: Check, thorough: bool = False) -> None:
            'the composite parser no longer rewinds the stream / reports all errors', cpp.loc)
     chk.require('R20.4', 6)
 
+    check_r20_2_unknown_values(repo, chk)
     # ------------------------------------------------------------------ R20.5
     cfgi = CFG(ip)
     splits = [n for n in ip.walk() if isinstance(n, ast.Assign) and isinstance(n.value, ast.ListComp) and
@@ -381,3 +382,31 @@ def run(repo: Repo, chk: Check, thorough: bool = False) -> None:
     ok = isinstance(secs, ast.List) and [const_str(e) for e in secs.elts] == ['tool.pydoctor', 'tool:pydoctor', 'pydoctor'] and \
         isinstance(pcp, ast.Call) and all('CONFIG_SECTIONS' in norm(e) for e in pcp.args[0].elts)  # type: ignore[attr-defined]
     chk.ob('R20.6', f'{OPT}.CONFIG_SECTIONS :: both formats read the same sections', ok, "['tool.pydoctor', 'tool:pydoctor', 'pydoctor']", 'pydoctor/options.py')
+
+
+def check_r20_2_unknown_values(repo: Repo, chk: Check) -> None:
+    # "an unknown key is warned about rather than aborting": ValidatorParser drops unknown keys AFTER the file parser returned - but the INI parser
+    # evaluates every value while it reads the file (`[...]` lists, quoted strings) and raises ConfigFileParserException on a value it cannot evaluate.
+    # A key that means nothing to pydoctor (`exclude = [tests]/*.py [docs]` of another tool in the same section) then aborts the run.  The evaluation
+    # that can raise has to be skipped for keys that are not known (or its error contained for them)
+    ip = repo.func(f'{CP}.IniConfigParser.parse')
+    cfi = CFG(ip)
+    raises_ = [r for r in ip.walk() if isinstance(r, ast.Raise) and 'ConfigFileParserException' in norm(r)]
+    if not raises_:
+        raise AnalysisError('R20.2: IniConfigParser.parse no longer raises ConfigFileParserException for a value it cannot evaluate')
+    loops = [lp for lp in ip.walk() if isinstance(lp, ast.For) and any(r_ in list(ast.walk(lp)) for r_ in raises_)]
+    # the KEY variable: first name of the target of the innermost loop that contains the evaluation (`for k, value in config[section].items()`)
+    inner = [lp for lp in loops if not any(o is not lp and any(x is o for x in ast.walk(lp)) for o in loops)]
+    keyvars = {next(t.id for t in ast.walk(lp.target) if isinstance(t, ast.Name)) for lp in inner if isinstance(lp.target, (ast.Tuple, ast.List))}
+    # a statement inside the loop that leaves the iteration for unknown keys: `if <known> is not None and k not in <known>: ...; continue`
+    skips = [i for lp in loops for i in ast.walk(lp) if isinstance(i, ast.If) and any(isinstance(x, ast.Continue) for x in i.body) and
+             any(isinstance(c, ast.Compare) and isinstance(c.ops[0], ast.NotIn) and isinstance(c.left, ast.Name) and c.left.id in keyvars for c in ast.walk(i.test))]
+    per_key = [r for r in raises_ if any(r in list(ast.walk(st)) for lp in ip.walk() if isinstance(lp, ast.For) for st in lp.body)]
+    if not per_key:
+        raise AnalysisError('R20.2: no per-key evaluation error found in IniConfigParser.parse')
+    for r in per_key:
+        guarded = any(cfi.before(i, r) for i in skips)
+        chk.ob('R20.2', f'{CP}.IniConfigParser.parse :: a value is only evaluated for keys that mean something', guarded,
+               'unknown keys leave the iteration before any evaluation' if guarded else
+               f'`{norm(r)[:60]}` can be reached for ANY key of the section: `exclude = [tests]/*.py [docs]` or `banner = "C:\\Users\\me\\x"` - neither is a pydoctor option - '
+               'ends the run with "Error evaluating list" / "Error trying to unquote" instead of the warning "No such config option"', repo.loc(ip.mod, r))
